@@ -1,6 +1,6 @@
 (** * C11 - depth surfaces given at points are honoured, affine-exact and bounded ([R] theorems). *)
 From Coq Require Import Reals Lra List ZArith Bool.
-From WB Require Import Num Base RNum Kernels SurfaceProofs.
+From WB Require Import Num Base RNum Kernels SurfaceProofs SurfaceLookup.
 Import ListNotations.
 Local Open Scope R_scope.
 
@@ -79,6 +79,31 @@ Section C11.
   Qed.
 End C11.
 
+(** the triangle search of [Surface::local_value], for every number interpretation (binary64 included): whichever route
+    (nearest centroid, its longitude alias, the other kd candidates, the last-resort loop over all nodes) produces the answer,
+    it is the value [in_triangle] computes for one triangle of the surface at the point or at its alias - containment and
+    interpolation always belong to the same triangle - and the search fails only if no triangle accepts the point *)
+Section C11_lookup.
+  Context {F : Type} {N : Num F}.
+
+  Theorem C11_lookup_answers_from_one_triangle : forall (s : @dsurf F) sph p v,
+    ds_const s = false -> surface_local_value s sph p = Some v ->
+    exists k p0, (p0 = p \/ (sph = true /\ p0 = alias_point p)) /\
+                 in_triangle (nth k (ds_tris s) tri_default) p0 = Some v.
+  Proof. exact surface_lookup_sound. Qed.
+
+  Theorem C11_lookup_never_loses_a_triangle : forall (s : @dsurf F) sph p nd,
+    ds_const s = false -> In nd (ds_nodes s) ->
+    (in_triangle (nth (kd_index nd) (ds_tris s) tri_default) p <> None \/
+     (sph = true /\ in_triangle (nth (kd_index nd) (ds_tris s) tri_default) (alias_point p) <> None)) ->
+    surface_local_value s sph p <> None.
+  Proof. exact surface_lookup_complete. Qed.
+
+  Theorem C11_constant_surface : forall (s : @dsurf F) sph p,
+    ds_const s = true -> surface_local_value s sph p = Some (ds_min s).
+  Proof. exact surface_lookup_constant. Qed.
+End C11_lookup.
+
 Print Assumptions C11_value.
 Print Assumptions C11_bounds.
 Print Assumptions C11_node.
@@ -86,3 +111,6 @@ Print Assumptions C11_affine.
 Print Assumptions C11_no_point_of_a_triangle_is_missed.
 Print Assumptions C11_merge_listed.
 Print Assumptions C11_corner_override_refuted.
+Print Assumptions C11_lookup_answers_from_one_triangle.
+Print Assumptions C11_lookup_never_loses_a_triangle.
+Print Assumptions C11_constant_surface.
